@@ -77,8 +77,10 @@ def nontrivial(r, a):
 SPEC = {
     "tables": ["Conj"],
     "props_module": PROPS_MODULE,
-    "required": ["prim_conj_exact", "claiming_is_clifford", "nonclaiming_refuse", "routing_sound",
-                 "is_stabilizer_conjunction", "conj_exact_of_term"],
+    "required": ["prim_conj_exact", "claiming_is_clifford", "param_prims_do_not_claim", "nonclaiming_refuse",
+                 "named_wrappers_keep_defaults", "nonclaiming_refuse_term_partial", "loop0_nonclaiming_accepts",
+                 "is_stabilizer_conjunction", "routing_sound", "conj_exact_of_term_general", "prims_exact_generated",
+                 "conj_exact_of_term", "conj_exact_kron_own_matrix", "identity_skips_arity_check"],
     "drivers": ["drv_c06"],
     "harness_bin": "c06",
     "canon": canon,
@@ -87,7 +89,7 @@ SPEC = {
     "classify": lambda fl: KNOWN_CLASSES.get(fl.get("class")),
     "nontrivial": nontrivial,
     "rule": "(1) every registry gate (39; 4 parameter draws in thorough): is_stabilizer(), matrix(), conjugate() on all 4^k strings and on "
-            "every operand slice of length 0..k+2 != k; (2) 29 written-out nestings + generated nested terms on 1..4 qubits (Kron, "
+            "every operand slice of length 0..k+2 != k; (2) 30 written-out nestings + generated nested terms on 1..4 qubits (Kron, "
             "Composite via add_gate, Loop with 0..3 iterations, depth <= 3; 60% purely Clifford, the rest with T / rotations / C<G> / "
             "named controlled gates injected at 6% or 20% per leaf): the same calls, all 4^k strings; (3) composites of parameterless "
             "named gates rebuilt through Composite::from_string; (4) malformed composites (add_gate validates nothing: arity mismatch, "
